@@ -19,14 +19,14 @@ TCfg(c) == [mode |-> c.mode, ownsAll |-> c.ownsAll, kchains |-> SeqToSet(c.kchai
 
 TInit == /\ l = 1
          /\ cfg = [mode |-> "insert", ownsAll |-> FALSE, kchains |-> {}]
-         /\ desired = [chains |-> <<>>, ins |-> <<>>, app |-> <<>>]
+         /\ desired = [chains |-> <<>>, force |-> {}, ins |-> <<>>, app |-> <<>>]
          /\ kernel = <<>>
          /\ belief = [stale |-> TRUE, due |-> TRUE]
          /\ phase = [inApply |-> FALSE, readFailed |-> FALSE, envFail |-> FALSE, notified |-> FALSE, consistent |-> TRUE]
          /\ known = {}
 
 TReset       == IsEvent("reset") /\ P!Reset(TCfg(Cur.cfg), Cur.kernel)
-TSetChain    == IsEvent("set_chain") /\ P!SetChain(Cur.name, Bodies(Cur.rules))
+TSetChain    == IsEvent("set_chain") /\ P!SetChain(Cur.name, Bodies(Cur.rules), Cur.force)
 TRemoveChain == IsEvent("remove_chain") /\ P!RemoveChain(Cur.name)
 TSetIns      == IsEvent("set_ins") /\ P!SetIns(Cur.chain, Bodies(Cur.rules))
 TSetApp      == IsEvent("set_app") /\ P!SetApp(Cur.chain, Bodies(Cur.rules))
